@@ -19,6 +19,8 @@ def candidates(ids, n_first=3):
 
 
 def cand(p, ids, side):
+    if p.get("cands"):
+        return [ids[i] for i in p["cands"][0 if side == "src" else 1]]
     n = p.get("ncand", 4)
     if n >= 4:
         return candidates(ids)
@@ -105,10 +107,23 @@ def run(ctx, W, memo=None):
         getattr(wl, op)(lab, wells, vols, **kw)
     elif op == "transfer":
         sc, dc = cand(p, sids, "src"), cand(p, dids, "dst")
-        sw = [ctx.choose(f"src{i}", sc) for i in range(k)]
-        dw = [ctx.choose(f"dst{i}", dc) for i in range(k)]
         vlo = -common.BIG if p.get("neg") else 0
-        per = [ctx.real(f"x{i}", vlo, common.BIG) for i in range(k)]
+        arg_s = arg_d = arg_v = None
+        if p.get("shape2d"):
+            # 2-D array arguments (read column-major): wells[0:2, 0:2] of both labware, volumes as a 2x2 nested list
+            rr, cc = min(2, len(W.src.row_ids), len(W.dst.row_ids)), min(2, W.src.n_columns, W.dst.n_columns)
+            arg_s, arg_d = W.src.wells[0:rr, 0:cc], W.dst.wells[0:rr, 0:cc]
+            grid = [[ctx.real(f"x{r}_{c}", vlo, common.BIG) for c in range(cc)] for r in range(rr)]
+            arg_v = grid
+            rows = "ABCDEFGHIJKLMNOPQRSTUVWXYZ"
+            sw = [f"{rows[r]}{c + 1:02d}" for c in range(cc) for r in range(rr)]
+            dw = list(sw)
+            per = [grid[r][c] for c in range(cc) for r in range(rr)]
+            k = len(per)
+        else:
+            sw = [ctx.choose(f"src{i}", sc) for i in range(k)]
+            dw = [ctx.choose(f"dst{i}", dc) for i in range(k)]
+            per = [ctx.real(f"x{i}", vlo, common.BIG) for i in range(k)]
         for s_, d_, v in zip(sw, dw, per):
             W.named += [("S", s_, -1, v), (W.dst.name, d_, 1, v)]
             W.pairs.append((s_, d_, v))
@@ -133,7 +148,10 @@ def run(ctx, W, memo=None):
             args_v = per[:-1]
         elif p.get("bad") == "src-1":
             sw = sw[:-1]
-        wl.transfer(W.src, sw, W.dst, dw, args_v, partition_by=p.get("partition_by", "auto"), wash_scheme=wash, **W.kwargs, **kw)
+        if arg_s is not None:
+            wl.transfer(W.src, arg_s, W.dst, arg_d, arg_v, partition_by=p.get("partition_by", "auto"), wash_scheme=wash, **W.kwargs, **kw)
+        else:
+            wl.transfer(W.src, sw, W.dst, dw, args_v, partition_by=p.get("partition_by", "auto"), wash_scheme=wash, **W.kwargs, **kw)
     elif op == "distribute":
         col = ctx.choose("col", list(range(W.src.n_columns)))
         sels = p.get("dsels") or [[0], [0, -1], [1, 2, 0]]
